@@ -258,7 +258,11 @@ def run(ctx):
     # excluded point, observed on the real code only (a Lean string cannot hold it): an idempotency key that is not valid
     # UTF-8 (it can only come from the raw HTTP header) is written as the escape \ufffd; the decoded key is U+FFFD, which
     # re-marshals as the raw character, so neither the key nor the recomputed hash agree
-    ctx.cov["excluded_points_observed"] = {"invalid-utf8-idempotency-key": [dict(impl.get(i["id"]) or {}, hex=i["hex"]) for i in kinds.get("ikbytes", [])]}
+    ctx.cov["excluded_points_observed"] = {
+        "invalid-utf8-idempotency-key": [dict(impl.get(i["id"]) or {}, hex=i["hex"]) for i in kinds.get("ikbytes", [])],
+        # legacy rows (sample of internal/storage/testdata/v1-dump.sql) through LogV1.ToLogsV2 + Logs.ToCore: they decode, their hash is the
+        # v1 hash kept as hex text, which ChainLog cannot reproduce
+        "v1-migrated-rows": [impl.get(i["id"]) for i in kinds.get("v1", [])]}
 
     # L3 — the property itself on the implementation's outputs
     seen, nontrivial, n_entries, n_refused = set(), 0, 0, 0
@@ -325,5 +329,8 @@ def run(ctx):
         "body or a validated address) is outside the model: encoding/json writes the escape \\ufffd for the bad bytes, the decoded key is U+FFFD and "
         "re-marshals differently, so key and recomputed hash both differ (observed on each run: coverage.excluded_points_observed). Not counted as a "
         "violation: a UTF-8 PostgreSQL database refuses such a varchar, InsertLogs fails and no such log is ever stored (not executable here)",
+        "entries copied by the v1->v2 migration (migrations_v1.go: LogV1.ToLogsV2) are outside: they were hashed by the v1 engine and keep that hash "
+        "as hex text; they decode (observed on each run) but can by construction not be re-verified with ChainLog. C13 covers entries written by the "
+        "v2 engine (constructors of internal/log.go -> ChainLog -> InsertLogs)",
         "harness process runs in UTC; PostgreSQL's jsonb/timestamptz normalisation is not executed (decoder is key-order independent, dates are microsecond UTC)",
     ]
